@@ -47,7 +47,35 @@ func genericParser() *parser2.Parser[int] {
 		SetStringConverter(parser2.StringConverterFunc[int](func(s string) int { return len(s) }))
 }
 
-func classifyLeak(leaks string) string {
+// slowParallelStage: the pipeline has a map or accept stage whose function calls slow() — the stages that
+// switch to worker goroutines (iterator.MapAuto / FilterAuto), which finding F12b is about.
+func slowParallelStage(src string) bool {
+	for _, m := range []string{".map(", ".accept("} {
+		for at := 0; ; {
+			i := strings.Index(src[at:], m)
+			if i < 0 {
+				break
+			}
+			start := at + i + len(m)
+			depth, end := 1, start
+			for ; end < len(src) && depth > 0; end++ {
+				switch src[end] {
+				case '(':
+					depth++
+				case ')':
+					depth--
+				}
+			}
+			if strings.Contains(src[start:end], "slow(") {
+				return true
+			}
+			at = start
+		}
+	}
+	return false
+}
+
+func classifyLeak(leaks, src string) string {
 	parts := strings.Split(leaks, "; ")
 	all := func(pred func(string) bool) bool {
 		for _, p := range parts {
@@ -65,7 +93,7 @@ func classifyLeak(leaks string) string {
 	case all(func(p string) bool {
 		// workers of a parallel map/accept blocked on the result channel and the goroutine that waits for them
 		return strings.Contains(p, "started at iterator.initParallel") && (strings.Contains(p, "parked forever in send") || strings.Contains(p, "parked forever in wg.Wait"))
-	}):
+	}) && slowParallelStage(src):
 		return "F12b-parallel-workers-stranded"
 	}
 	return ""
@@ -127,7 +155,7 @@ func runParser(ctx *bex.Ctx) {
 			if t := st.FirstLeak(); t != nil {
 				rp := copyMap(repro)
 				rp["schedule"] = t.Choices
-				ctx.Violate("goroutine left behind after Parse/Generate returned", rp, "every goroutine started by the call has terminated", t.Leaks, classifyLeak(t.Leaks))
+				ctx.Violate("goroutine left behind after Parse/Generate returned", rp, "every goroutine started by the call has terminated", t.Leaks, classifyLeak(t.Leaks, ""))
 			}
 			if t := st.FirstCrash(); t != nil {
 				ctx.Violate("panic on the tokenizer goroutine", repro, "no panic", t.Crash, "")
@@ -182,7 +210,7 @@ type pscenario struct {
 
 func pipelines(quick bool, emit func(pscenario)) {
 	stops := []string{"%s.first()", "%s.top(1).size()", "%s.top(13).size()", "%s.top(14).size()", "%s.present(x->x>2)", "%s.present(x->x>25)", "%s.indexWhere(x->x>26)",
-		"%s.single()", "27~%s", "3~%s", "%s.size()", "%s.reduce((p,q)->p+q)", "%s.multiUse({a:l->l.first(),b:l->l.size()})", "%s.multiUse({a:l->l.first(),b:l->l.top(2).size()})"}
+		"%s.single()", "27~%s", "3~%s", "%s=[5]", "[0,5]=%s", "%s=numbers(n+n).map(x->x+2)", "%s.size()", "%s.reduce((p,q)->p+q)", "%s.multiUse({a:l->l.first(),b:l->l.size()})", "%s.multiUse({a:l->l.first(),b:l->l.top(2).size()})"}
 	srcs := []string{
 		"numbers(n).map(x->slow(x)*2+1)",
 		"numbers(n).accept(x->slow(x)%3!=1)",
@@ -193,6 +221,12 @@ func pipelines(quick bool, emit func(pscenario)) {
 		"numbers(n).merge(numbers(n).map(x->x+1),(a,b)->a<b)",
 		"numbers(n).map(x->x*2).merge(numbers(n).map(x->(if x=1 then throw(\"e\") else x)),(a,b)->a<b)",
 		"numbers(n).map(x->slow(x)*2+1).merge(numbers(3),(a,b)->a<b)",
+		// the other stages that call a function per element: they must stay on the consumer's goroutine
+		"numbers(n).number((i,v)->slow(v)+i)",
+		"numbers(n).combine((p,q)->slow(p)+q)",
+		"numbers(n).compact((p,q)->slow(p)=q+100)",
+		"numbers(n).cross([1],(x,y)->slow(x)+y)",
+		"numbers(n).iir(x->slow(x),(x,l)->x+l)",
 	}
 	// every error path of the goroutine-starting operations: arguments rejected at every position of
 	// the validation, consumers / comparators / stages that fail or return the wrong type
@@ -318,7 +352,7 @@ func runPipelines(ctx *bex.Ctx) {
 		if t := st.FirstLeak(); t != nil {
 			rp := copyMap(repro)
 			rp["schedule"] = t.Choices
-			ctx.Violate("goroutine left behind after the evaluation returned", rp, "every goroutine started by the call has terminated", t.Leaks, classifyLeak(t.Leaks))
+			ctx.Violate("goroutine left behind after the evaluation returned", rp, "every goroutine started by the call has terminated", t.Leaks, classifyLeak(t.Leaks, sc.Src))
 		}
 		if t := st.FirstCrash(); t != nil {
 			ctx.Violate("panic on a library goroutine", repro, "no panic", t.Crash, "")
@@ -347,7 +381,7 @@ func runPipelines(ctx *bex.Ctx) {
 			}
 			if t := su.FirstLeak(); t != nil {
 				rp["schedule"] = t.Choices
-				ctx.Violate("goroutine left behind after the evaluation returned", rp, "every goroutine started by the call has terminated", t.Leaks, classifyLeak(t.Leaks))
+				ctx.Violate("goroutine left behind after the evaluation returned", rp, "every goroutine started by the call has terminated", t.Leaks, classifyLeak(t.Leaks, sc.Src))
 			}
 			if t := su.FirstCrash(); t != nil {
 				ctx.Violate("panic on a library goroutine", rp, "no panic", t.Crash, "")
@@ -368,7 +402,7 @@ func runPipelines(ctx *bex.Ctx) {
 			}
 		}
 	})
-	ctx.SpaceDone("29 misuse / error-path programs of multiUse, merge, map, accept (arguments rejected at every position of the validation, failing or wrongly typed consumers, comparators and stages) x sizes 0,1,3; 9 sources (parallel map/accept, failing elements in both phases, merge) x 14 consumers (first, top, present, indexWhere, single, ~, size, reduce, multiUse) x sizes around the switch to parallel execution; all schedules; W=2")
+	ctx.SpaceDone("29 misuse / error-path programs of multiUse, merge, map, accept (arguments rejected at every position of the validation, failing or wrongly typed consumers, comparators and stages) x sizes 0,1,3; 14 sources (parallel map/accept, failing elements in both phases, merge) x 14 consumers (first, top, present, indexWhere, single, ~, size, reduce, multiUse) x sizes around the switch to parallel execution; all schedules; W=2")
 }
 
 func copyMap(m map[string]any) map[string]any {
